@@ -361,9 +361,13 @@ impl<O: Clone + PartialEq, A: Clone> Hypergraph<O, A> {
         use std::mem::take;
         let q = self.coequalizer();
 
-        self.nodes = match coequalizer_universal(&q, &VecArray(take(&mut self.nodes))) {
+        let nodes = VecArray(take(&mut self.nodes));
+        self.nodes = match coequalizer_universal(&q, &nodes) {
             Some(nodes) => nodes.0,
-            None => return Err(q),
+            None => {
+                self.nodes = nodes.0;
+                return Err(q);
+            }
         };
 
         // map hyperedges
